@@ -48,6 +48,7 @@ def _run_kernel(spec):
         kc = [c for c in mod.KERNELS if c.__name__ == clsname][0]
         k = kc()
         k.bounded_mode = bounded
+        k.current_property = pid
         dumps = extract.dump_many(k.requests())
         k.locate(dumps)
         obs, st = k.run_all()
